@@ -28,9 +28,20 @@ class TLoop(SimLoop):
         return super().call_soon(run, *args, context=context)
 
 
+def promote_timers(loop):
+    import heapq
+    if loop._ready or not loop._scheduled:
+        return
+    loop._vtime = max(loop._vtime, loop._scheduled[0]._when)
+    while loop._scheduled and loop._scheduled[0]._when <= loop._vtime:
+        h = heapq.heappop(loop._scheduled); h._scheduled = False
+        if not h._cancelled: loop._ready.append(h)
+
+
 def step_one(loop):
     """Run exactly one ready handle (FIFO head)."""
     from asyncio import events
+    promote_timers(loop)
     if not loop._ready:
         return False
     h = loop._ready.popleft()
@@ -93,7 +104,7 @@ def instrument(pid, mpc, loop, mods):
     def init(self, rt, coro):
         ctx = id(rt._program_counter)
         orig(self, rt, coro)
-        PCLOG.append(dict(party=pid, hid=loop.current, ctx=ctx, counter=rt._program_counter[0], kind='fork',
+        PCLOG.append(dict(party=pid, hid=loop.current, ctx=ctx, task=id(asyncio.current_task(loop)), counter=rt._program_counter[0], kind='fork',
                           root=(rt._program_counter[1] == 0), coro=getattr(coro, '__qualname__', '?')))
     W.__init__ = init
     rt_cls = type(mpc)
@@ -101,7 +112,7 @@ def instrument(pid, mpc, loop, mods):
     def uci(self):
         ctx = id(self._program_counter)
         r = orig_uci(self)
-        PCLOG.append(dict(party=pid, hid=loop.current, ctx=ctx, counter=self._program_counter[0], kind='uci',
+        PCLOG.append(dict(party=pid, hid=loop.current, ctx=ctx, task=id(asyncio.current_task(loop)), counter=self._program_counter[0], kind='uci',
                           root=(self._program_counter[1] == 0), coro=''))
         return r
     rt_cls._prss_uci = uci
@@ -119,16 +130,23 @@ def run_instrumented(m, t, program, order=None, extra_args=(), max_steps=200000,
         simnet0.SimLoop = saved
     for i, (mpc, loop, mods) in enumerate(parties):
         instrument(i, mpc, loop, mods)
-    tasks = []
+    tasks = []; gates = []; started = [False] * m
     for i, (mpc, loop, mods) in enumerate(parties):
-        async def main(mpc=mpc):
+        gate = asyncio.Event(); gates.append(gate)
+        async def main(mpc=mpc, gate=gate, i=i):
             await mpc.start()
+            started[i] = True
+            await gate.wait()
             r = await program(mpc)
             await mpc.shutdown()
             return r
         tasks.append(loop.create_task(main()))
     prio = {w: k for k, w in enumerate(order)} if order else {}
+    run_instrumented.gate_hid = None
     for step in range(max_steps):
+        if run_instrumented.gate_hid is None and all(started) and not any(l._ready for _, l, _ in parties) and not net.deliverable():
+            run_instrumented.gate_hid = next(TLoop.hid_counter)
+            for g in gates: g.set()
         if all(tk.done() for tk in tasks):
             break
         net.process_closes()
